@@ -204,7 +204,8 @@ def getrec(e):
     for name, fn in (("triggered", lambda: None if e.triggered is None else bool(e.triggered)),
                      ("rays", lambda: _rays_of(e)),
                      ("waves", lambda: e.get_waveforms()), ("noise", lambda: e.noise_bases),
-                     ("comps", lambda: sorted(e.get_triggered_components()))):
+                     ("comps", lambda: sorted(e.get_triggered_components())),
+                     ("comps_by_ray", lambda: {str(r_): sorted(e.get_triggered_components(ray=r_)) for r_ in (0, 1, 2, 3, "direct", "reflected", "Direct")})):
         try:
             out[name] = fn()
         except ValueError as err:
@@ -264,6 +265,12 @@ def cmp_model(m, o, nant, where=""):
         expc = sorted(k for k, val in m["comps"].items() if (val if isinstance(val, bool) else any(val[:m["maxw"]])))
         if o["comps"] != expc:
             return ("triggered components == those recorded", {"expected": expc, "got": o["comps"], "where": where})
+        # ... and waveform by waveform (ray 0 = "direct", 1 = "reflected"), where some component was recorded per waveform
+        if any(not isinstance(val, bool) for val in m["comps"].values()) and isinstance(o.get("comps_by_ray"), dict):
+            for r_, name_ in ((0, "0"), (1, "1"), (2, "2"), (3, "3"), (0, "direct"), (1, "reflected"), (0, "Direct")):
+                exp_r = sorted(k for k, val in m["comps"].items() if (val if isinstance(val, bool) else (r_ < len(val) and val[r_]))) if r_ < m["maxw"] else []
+                if o["comps_by_ray"].get(name_) != exp_r:
+                    return ("triggered components of one waveform == those recorded for that waveform", {"ray": name_, "expected": exp_r, "got": o["comps_by_ray"].get(name_), "recorded": {k: val for k, val in m["comps"].items()}, "where": where})
     return None
 
 
